@@ -497,8 +497,8 @@ class ImplCoverage:
     inputs reached — the correspondence and the oracles can only see what the generators exercise."""
     TOOL = 3
 
-    def __init__(self, root='/repo/pytrs'):
-        self.root = root
+    def __init__(self, root=None):
+        self.root = root or os.path.join(REPO, 'pytrs')
         self.hits = set()
         self.on = False
 
